@@ -58,6 +58,9 @@ REMID_CORPUS = [
     {"nq": 2, "spec": [["g", "x", [0]], ["bar"], ["dup2"]]},
     {"nq": 1, "spec": [["g", "s", [0]], ["dup"]]},
     {"nq": 2, "spec": [["g", "cp", [0, 1]], ["dup"]]},
+    {"nq": 2, "spec": [["g", "cx", [0, 1]], ["dupperm"]]},
+    {"nq": 3, "spec": [["g", "ccx", [0, 1, 2]], ["dupperm"], ["g", "x", [0]]]},
+    {"nq": 3, "spec": [["g", "cx", [2, 1]], ["bar"], ["g", "h", [0]], ["g", "cx", [0, 1]], ["dupperm"], ["dup"]]},
 ]
 
 
@@ -70,6 +73,8 @@ def remid_spec(rng):
             out.append(["dup"])
         elif r < 0.4 and len(out) >= 2 and out[-1][0] == "bar" and out[-2][0] in ("g", "dup"):
             out.append(["dup2"])
+        elif r < 0.48 and out and out[-1][0] in ("g", "dup"):
+            out.append(["dupperm"])
         elif r < 0.55:
             out.append(["bar"])
         else:
@@ -244,6 +249,13 @@ def check_remid(case):
             pairs += 1
             noninv |= type(last[0]).__name__.lower() not in SELF_INVERSE
             desc.append(("same-object", type(last[0]).__name__, list(last[1])))
+        elif st[0] == "dupperm" and last is not None and len(last[1]) >= 2:
+            # the same gate OBJECT on the same qubits in another order: not an identical application
+            w2 = list(last[1])
+            w2 = w2[1:] + w2[:1]
+            qc.append(last[0], w2, last[2])
+            desc.append(("same-object-permuted-wires", type(last[0]).__name__, w2))
+            last = (last[0], w2, last[2])
         elif st[0] == "dup2" and prev_before_bar is not None and last is None:
             g, w, p = prev_before_bar
             qc.append(g, list(w), p)
